@@ -272,3 +272,141 @@ Proof.
   rewrite Hu. rewrite N.mod_small by exact Hty.
   destruct l; reflexivity.
 Qed.
+
+(* ---------------- damaged encodings (C11) ---------------- *)
+(* A valid encoding cut short anywhere, or followed by extra bytes, does not
+   decode: every field is self-delimiting and the time field is last and
+   length-exact. *)
+Lemma get_uvarint_aux_cut f : forall v n i x s,
+  (n < length (put_uvarint_aux (S f) v))%nat -> (i + S f <= 10)%nat ->
+  get_uvarint_aux (firstn n (put_uvarint_aux (S f) v)) i x s = (0, 0%Z).
+Proof.
+  induction f as [|f IH]; intros v n i x s Hn Hi.
+  - cbn [put_uvarint_aux] in *. destruct (v <? 128); cbn [length] in Hn.
+    + destruct n; [reflexivity|lia].
+    + destruct n; [reflexivity|lia].
+  - rewrite put_uvarint_aux_S in *. destruct (v <? 128) eqn:E.
+    + cbn [length] in Hn. destruct n; [reflexivity|lia].
+    + cbn [length] in Hn. destruct n as [|n]; [reflexivity|].
+      cbn [firstn get_uvarint_aux].
+      replace (Nat.eqb i 10) with false by (symmetry; apply Nat.eqb_neq; lia).
+      replace (v mod 128 + 128 <? 128) with false by (symmetry; apply N.ltb_ge; lia).
+      apply IH; lia.
+Qed.
+
+Lemma dec_varint_cut v n : (n < length (put_uvarint v))%nat -> dec_varint (firstn n (put_uvarint v)) = DErr.
+Proof.
+  intros H. unfold dec_varint, get_uvarint, put_uvarint in *.
+  rewrite get_uvarint_aux_cut by (assumption || lia). reflexivity.
+Qed.
+
+Lemma firstn_app_cases {A} n (a b : list A) :
+  ((n < length a)%nat /\ firstn n (a ++ b) = firstn n a) \/
+  ((length a <= n)%nat /\ firstn n (a ++ b) = a ++ firstn (n - length a) b).
+Proof.
+  destruct (Nat.lt_ge_cases n (length a)) as [H|H]; [left|right]; split; try assumption.
+  - rewrite firstn_app. replace (n - length a)%nat with 0%nat by lia. rewrite firstn_O, app_nil_r. reflexivity.
+  - rewrite firstn_app. rewrite firstn_all2 by lia. reflexivity.
+Qed.
+
+Lemma dec_bytes_cut d n :
+  len d < two64 -> (n < length (enc_bytes d))%nat -> dec_bytes (firstn n (enc_bytes d)) = DErr.
+Proof.
+  intros Hl Hn. unfold enc_bytes in *. rewrite app_length in Hn.
+  destruct (firstn_app_cases n (put_uvarint (len d)) d) as [[H E]|[H E]]; rewrite E; unfold dec_bytes.
+  - rewrite dec_varint_cut by exact H. reflexivity.
+  - rewrite dec_varint_put by exact Hl.
+    replace (len d =? 0) with false by (symmetry; apply N.eqb_neq; unfold len in *; lia).
+    replace (len (firstn (n - length (put_uvarint (len d))) d) <? len d) with true; [reflexivity|].
+    symmetry. apply N.ltb_lt. unfold len in *. rewrite firstn_length. lia.
+Qed.
+
+Lemma marshal_time_shape t tb :
+  marshal_time t = Some tb ->
+  exists v rest, tb = v :: rest /\ ((v = 1 /\ length tb = 15%nat) \/ (v = 2 /\ length tb = 16%nat)).
+Proof.
+  unfold marshal_time. intros H.
+  destruct (t_zone t) as [off|].
+  - destruct ((Z.quot off 60 <? -32768) || (Z.quot off 60 =? -1) || (32767 <? Z.quot off 60))%Z; [discriminate|].
+    destruct (Z.rem off 60 =? 0)%Z; injection H as <-.
+    + do 2 eexists. split; [reflexivity|]. left. split; reflexivity.
+    + do 2 eexists. split; [reflexivity|]. right. split; reflexivity.
+  - injection H as <-. do 2 eexists. split; [reflexivity|]. left. split; reflexivity.
+Qed.
+
+Lemma unmarshal_wrong_length v rest n :
+  (v = 1 /\ n <> 15%nat) \/ (v = 2 /\ n <> 16%nat) -> length (v :: rest) = n ->
+  unmarshal_time (v :: rest) = None.
+Proof.
+  intros H L. unfold unmarshal_time. destruct H as [[-> Hn]|[-> Hn]].
+  - change (negb ((1 =? 1) || (1 =? 2))) with false. change (1 =? 2) with false. cbv iota.
+    rewrite L. replace (Nat.eqb n 15) with false by (symmetry; apply Nat.eqb_neq; exact Hn). reflexivity.
+  - change (negb ((2 =? 1) || (2 =? 2))) with false. change (2 =? 2) with true. cbv iota.
+    rewrite L. replace (Nat.eqb n 16) with false by (symmetry; apply Nat.eqb_neq; exact Hn). reflexivity.
+Qed.
+
+Lemma unmarshal_time_cut t tb n :
+  marshal_time t = Some tb -> (n < length tb)%nat -> unmarshal_time (firstn n tb) = None.
+Proof.
+  intros H Hn. destruct (marshal_time_shape t tb H) as (v & rest & -> & Hs).
+  destruct n as [|n]; [reflexivity|]. cbn [firstn].
+  apply (unmarshal_wrong_length v (firstn n rest) (S (length (firstn n rest)))); [|reflexivity].
+  rewrite firstn_length. cbn [length] in Hn, Hs.
+  destruct Hs as [[-> L]|[-> L]]; [left|right]; split; try reflexivity; lia.
+Qed.
+
+Lemma unmarshal_time_extra t tb extra :
+  marshal_time t = Some tb -> extra <> [] -> unmarshal_time (tb ++ extra) = None.
+Proof.
+  intros H Hn. destruct (marshal_time_shape t tb H) as (v & rest & -> & Hs).
+  assert (Le : (0 < length extra)%nat) by (destruct extra; [congruence|cbn; lia]).
+  cbn [app]. apply (unmarshal_wrong_length v (rest ++ extra) (S (length (rest ++ extra)))); [|reflexivity].
+  rewrite app_length. cbn [length] in Hs.
+  destruct Hs as [[-> L]|[-> L]]; [left|right]; split; try reflexivity; lia.
+Qed.
+
+Theorem decode_trailing_fails l bs extra :
+  wf_log l -> encode_log l = Some bs -> extra <> [] -> decode_log (bs ++ extra) = None.
+Proof.
+  intros (Hi & Ht & Hty & Hd & He & Hld & Hle & Htm) Henc Hne.
+  unfold encode_log in Henc. destruct (marshal_time (l_time l)) as [tb|] eqn:Hm; [|discriminate].
+  inversion Henc; subst bs. clear Henc. rewrite <- !app_assoc. unfold decode_log.
+  rewrite dec_varint_put by exact Hi.
+  rewrite dec_varint_put by exact Ht.
+  rewrite dec_varint_put by (unfold two64; lia).
+  rewrite dec_bytes_enc by exact Hld.
+  rewrite dec_bytes_enc by exact Hle.
+  rewrite (unmarshal_time_extra _ _ _ Hm Hne). reflexivity.
+Qed.
+
+Theorem decode_prefix_fails l bs n :
+  wf_log l -> encode_log l = Some bs -> (n < length bs)%nat -> decode_log (firstn n bs) = None.
+Proof.
+  intros (Hi & Ht & Hty & Hd & He & Hld & Hle & Htm) Henc Hn.
+  unfold encode_log in Henc. destruct (marshal_time (l_time l)) as [tb|] eqn:Hm; [|discriminate].
+  inversion Henc; subst bs. clear Henc. unfold decode_log.
+  rewrite !app_length in Hn.
+  destruct (firstn_app_cases n (put_uvarint (l_index l)) (put_uvarint (l_term l) ++ put_uvarint (l_type l) ++
+              enc_bytes (l_data l) ++ enc_bytes (l_ext l) ++ tb)) as [[H E]|[H E]]; rewrite E; clear E.
+  { rewrite dec_varint_cut by exact H. reflexivity. }
+  rewrite dec_varint_put by exact Hi.
+  set (n1 := (n - length (put_uvarint (l_index l)))%nat).
+  destruct (firstn_app_cases n1 (put_uvarint (l_term l)) (put_uvarint (l_type l) ++
+              enc_bytes (l_data l) ++ enc_bytes (l_ext l) ++ tb)) as [[H1 E]|[H1 E]]; rewrite E; clear E.
+  { rewrite dec_varint_cut by exact H1. reflexivity. }
+  rewrite dec_varint_put by exact Ht.
+  set (n2 := (n1 - length (put_uvarint (l_term l)))%nat).
+  destruct (firstn_app_cases n2 (put_uvarint (l_type l)) (enc_bytes (l_data l) ++ enc_bytes (l_ext l) ++ tb))
+    as [[H2 E]|[H2 E]]; rewrite E; clear E.
+  { rewrite dec_varint_cut by exact H2. reflexivity. }
+  rewrite dec_varint_put by (unfold two64; lia).
+  set (n3 := (n2 - length (put_uvarint (l_type l)))%nat).
+  destruct (firstn_app_cases n3 (enc_bytes (l_data l)) (enc_bytes (l_ext l) ++ tb)) as [[H3 E]|[H3 E]]; rewrite E; clear E.
+  { rewrite dec_bytes_cut by assumption. reflexivity. }
+  rewrite dec_bytes_enc by exact Hld.
+  set (n4 := (n3 - length (enc_bytes (l_data l)))%nat).
+  destruct (firstn_app_cases n4 (enc_bytes (l_ext l)) tb) as [[H4 E]|[H4 E]]; rewrite E; clear E.
+  { rewrite dec_bytes_cut by assumption. reflexivity. }
+  rewrite dec_bytes_enc by exact Hle.
+  rewrite (unmarshal_time_cut _ _ _ Hm); [reflexivity|]. unfold n4, n3, n2, n1 in *. lia.
+Qed.
